@@ -19,6 +19,7 @@ Geometry values become terms (python tuples, emitted as `OutCS.GT`):
     ("polygon", g)                                    Polygon(<coords of g>)
     ("clip", g, b0, b1, b2, b3)                       clip_by_rect(g, xmin, ymin, xmax, ymax); b = ("ninf",)|("pinf",)|("fin", e)
     ("refine", g)                                     refine_cross_section(g)
+    ("dedupe", g, e)                                  remove_repeated_points(g, tolerance=e * g.length)  (e: a literal <= 1e-9)
     ("ref", name)                                     a parameter of a generated Lean function (`lines`)
     ("call", helper, lines, e)                        a call of a translated helper (kept as a call in the Lean text)
 
@@ -306,6 +307,18 @@ class Exec:
             if len(call.args) != 5 or kw:
                 raise Untranslatable("clip_by_rect arguments")
             return ("clip", self.geom(call.args[0])) + tuple(self.bound(a) for a in call.args[1:])
+        if real == "remove_repeated_points":
+            # only the rounding clean-up form: tolerance = <literal <= 1e-9> * <the same geometry>.length
+            if len(call.args) != 1 or set(kw) != {"tolerance"} or not isinstance(call.args[0], ast.Name):
+                raise Untranslatable("remove_repeated_points arguments")
+            tol = kw["tolerance"]
+            if not (isinstance(tol, ast.BinOp) and isinstance(tol.op, ast.Mult)):
+                raise Untranslatable("remove_repeated_points tolerance is not <literal> * <geometry>.length")
+            lit, ln = (tol.left, tol.right) if isinstance(tol.left, ast.Constant) else (tol.right, tol.left)
+            if not (isinstance(lit, ast.Constant) and isinstance(lit.value, float) and 0 < lit.value <= 1e-9
+                    and pyexpr.attr_path(ln) == [call.args[0].id, "length"]):
+                raise Untranslatable("remove_repeated_points tolerance is not <literal <= 1e-9> * <geometry>.length")
+            return ("dedupe", self.geom(call.args[0]), ExprTranslator("\0self", {}).tr(lit))
         if isinstance(f, ast.Name) and f.id in self.refine_names:
             if len(call.args) != 1 or kw:
                 raise Untranslatable("refine_cross_section arguments")
@@ -334,7 +347,8 @@ class Exec:
             return n.id in self.geo
         if isinstance(n, ast.Call):
             f = n.func
-            if isinstance(f, ast.Name) and (self.shp.get(f.id) in ("translate", "rotate", "LineString", "Polygon", "clip_by_rect")
+            if isinstance(f, ast.Name) and (self.shp.get(f.id) in ("translate", "rotate", "LineString", "Polygon", "clip_by_rect",
+                                                                    "remove_repeated_points")
                                             or f.id in self.refine_names):
                 return True
             p = pyexpr.attr_path(f)
@@ -891,6 +905,8 @@ def lean_term(t):
         return f"(.{k} {lean_term(t[1])})"
     if k == "concat":
         return f"(.concat {lean_term(t[1])} {lean_term(t[2])})"
+    if k == "dedupe":
+        return f"(.dedupe {lean_term(t[1])} {pyexpr.lean_expr(t[2])})"
     if k == "clip":
         return f"(.clipRect {lean_term(t[1])} " + " ".join(lean_bound(b) for b in t[2:]) + ")"
     if k == "call":
